@@ -1,7 +1,7 @@
 """C24 — prettify preserves meaning and is idempotent.
 
-Proof: Props/C24.v (literal and identifier layer of the renderer: round trips for all Z / strings / booleans / null, the number
-round trip refuted with witnesses + proved on its closed-form domain, reserved-word quoting).
+Proof: Props/C24.v (literal and identifier layer of the renderer: round trips for all Z / strings / booleans / null and — since
+/repo 70d45d5 — all Number literals; the old float renderer kept as *_before_fix witnesses; reserved-word quoting).
 Tie K (real engine, through the parser front end):
   L  every generated literal: Codec.render_literal / py_repr / float_roundtrips (vm_compute) against the real
      ASTString._handle_literal, repr() and the real parse of the rendered text; the closed-form domain against the observed
@@ -39,17 +39,12 @@ def literal_tie(ctx, n_numbers: int):
     from vtlengine.AST.ASTString import _handle_literal
     import vtlengine
     rng = ctx.rng
-    numbers = list(SPECIAL_NUMBERS)
-    tries = 0
-    while len(numbers) < len(SPECIAL_NUMBERS) + n_numbers and tries < 20 * n_numbers:
-        tries += 1
-        t = G.gen_number_literal(rng)
-        if G.in_model_domain(t):
-            numbers.append(t)
-    numbers = [t for t in numbers if G.in_model_domain(t)]
+    numbers = list(SPECIAL_NUMBERS) + ["0.30000000000000004", "123456789.12345679", "0.1234567890123456789", "9007199254740993.0",
+                                       "179769313486231570000000000000000000000.0", "0.000000000000000000000000000001234"]
+    while len(numbers) < len(SPECIAL_NUMBERS) + n_numbers:
+        numbers.append(G.gen_number_literal(rng))
     numbers += ["-" + t for t in numbers[:60]]
-    numbers += ["150000000000000000000.0", "2513545527361640000000000.0", "12345678901234567.0"]     # engine-only (outside the float model)
-    # engine side
+    # engine side: the real renderer and the real parser
     eng = []
     for t in numbers:
         v = float(t)
@@ -58,14 +53,13 @@ def literal_tie(ctx, n_numbers: int):
             out = ("ok", r)
         except Exception as e:  # noqa
             out = ("raise", type(e).__name__)
-        rt = False
-        cls = None
+        rt, cls = False, None
         if out[0] == "raise":
             cls = "prettify:float-literal:repr-without-dot" if out[1] == "IndexError" else f"prettify:float-literal:raises-{out[1]}"
         else:
             txt = out[1]
             if NUM_RE.match(txt):
-                rt = float(txt) == v and not (v == 0 and str(float(txt)) != str(v))
+                rt = float(txt) == v and (v != 0 or str(float(txt)) == str(v))
                 if not rt:
                     cls = "prettify:float-literal:value-changed"
             elif INT_RE.match(txt):
@@ -73,79 +67,72 @@ def literal_tie(ctx, n_numbers: int):
             else:
                 cls = "prettify:float-literal:output-not-a-number-literal"
         eng.append({"text": t, "render": out, "repr": repr(v), "roundtrip": rt, "cls": cls})
-    # model side
+    # model side: the decimal is the one repr(v) shows, so EVERY finite float is in the model's domain
     exprs = []
-    modelled = [G.in_model_domain(t) for t in numbers]
     for t in numbers:
-        d, b = G.coq_dec(t), G.float_bias(t)
-        exprs.append(f"(option_map S_ (render_float (fun _ => {b}) {d}), S_ (py_repr {d}), float_roundtrips {b} {d}, float_roundtrip_domain {d})")
+        d = G.repr_dec(float(t))
+        exprs.append(f"(S_ (render_float_impl {d}), S_ (py_repr {d}), float_roundtrips {d}, dec_canon {d})")
     res = coq_eval(G.DEC_HEADER, exprs, "c24_num", shard=max(120, len(exprs) // 16 + 1))
     n_bad = 0
-    dom_hist = {"in-domain": 0, "outside": 0}
     by_cls: Dict[str, List[dict]] = {}
-    for e, m, inm in zip(eng, res, modelled):
-        if not inm:
-            if e["cls"]:
-                by_cls.setdefault(e["cls"], []).append(e)
-            continue
-        m_render, m_repr, m_rt, m_dom = m
-        m_render = None if m_render is None else m_render[1][1]
-        m_repr = m_repr[1]
+    for e, m in zip(eng, res):
+        m_render, m_repr, m_rt, m_canon = m[0][1], m[1][1], m[2], m[3]
         ctx.count(("num", e["text"]))
         real_render = e["render"][1] if e["render"][0] == "ok" else None
         problems = []
+        if not m_canon:
+            problems.append("harness produced a non-canonical decimal")
         if m_repr != e["repr"]:
             problems.append(f"py_repr model {m_repr!r} vs repr() {e['repr']!r}")
-        if m_render != real_render or (e["render"][0] == "raise" and e["render"][1] != "IndexError"):
+        if m_render != real_render:
             problems.append(f"render model {m_render!r} vs _handle_literal {e['render']!r}")
-        if bool(m_rt) != e["roundtrip"]:
-            problems.append(f"round trip model {m_rt} vs engine {e['roundtrip']}")
-        if bool(m_dom) != bool(m_rt):
-            problems.append(f"closed-form domain {m_dom} but computed round trip {m_rt}")
-        dom_hist["in-domain" if m_dom else "outside"] += 1
-        if problems:
+        if not m_rt:
+            problems.append("model round trip false (contradicts literal_roundtrip_number)")
+        if problems and e["cls"] is None:
             n_bad += 1
             ctx.oblige(f"L: model = engine on number literal {e['text']}", False, "; ".join(problems))
         if e["cls"]:
             by_cls.setdefault(e["cls"], []).append(e)
-    ctx.oblige(f"L: render_float / py_repr / round trip / domain agree with the engine on {len(numbers)} number literals", n_bad == 0,
-               f"{n_bad} literals disagree")
+    ctx.oblige(f"L: render_float_impl / py_repr agree with _handle_literal / repr() and round-trip through the real parser rule on "
+               f"{len(numbers)} number literals", n_bad == 0 and not by_cls, f"{n_bad} literals disagree; engine failure classes {sorted(by_cls)}")
     ctx.cov["number_literals"] = len(numbers)
-    ctx.cov["number_literals_domain"] = dom_hist
-    # the property predicate on the engine for each class, through the real prettify()
+    # the property predicate on the engine for each failing class (none since /repo 70d45d5; a regression is a violation)
     for cls, lst in sorted(by_cls.items()):
         e = lst[0]
         script = f"DS_r := DS_1 + {e['text']};"
         try:
-            p = vtlengine.prettify(script)
-            obs = repr(p)
+            obs = repr(vtlengine.prettify(script))
         except Exception as ex:  # noqa
             obs = f"raises {type(ex).__name__}: {ex}"
         ctx.violation(cls, f"prettify({script!r}) -> {obs}; {len(lst)} of {len(numbers)} generated number literals in this class, e.g. "
                       f"{[x['text'] for x in lst[:6]]}", {"script": script, "kind": "literal", "examples": [x["text"] for x in lst[:20]]})
     ctx.cov["number_literal_classes"] = {k: len(v) for k, v in by_cls.items()}
-
-    # the Coq witnesses of C24_literal_roundtrip_number_refuted replayed on the engine
-    wit = ["0.0000001", "10000000000000000000000.0", "0.00001234", "12345.678", "1234567.5", "1.0", "0.00000015"]
-    for t in wit:
-        e = next((x for x in eng if x["text"] == t), None)
-        ctx.oblige(f"witness {t} of literal_roundtrip_number_refuted also fails on the engine", e is not None and not e["roundtrip"],
-                   "" if e is None else str(e))
+    # the before-fix witnesses of C24_literal_roundtrip_number_refuted_before_fix now round-trip through the real prettify + parser
+    from vtlengine.API import create_ast
+    for t in ["0.0000001", "10000000000000000000000.0", "0.00001234", "12345.678", "1234567.5", "1.0", "0.00000015"]:
+        try:
+            p = vtlengine.prettify(f"x := {t};")
+            c = create_ast(p).children[0].right
+            ok = getattr(c, "type_", None) == "FLOAT_CONSTANT" and c.value == float(t)
+            det = p
+        except Exception as ex:  # noqa
+            ok, det = False, f"{type(ex).__name__}: {ex}"
+        ctx.oblige(f"before-fix witness {t} now round-trips on the engine", ok, det)
 
     # integers, strings, booleans, null
     ints = SPECIAL_INTS + [rng.randrange(-10 ** rng.randrange(1, 40), 10 ** rng.randrange(1, 40)) for _ in range(120)]
     strs = SPECIAL_STRINGS + ["".join(rng.choice("abcXYZ 0123456789,;:'#é€日_-+*/()[]{}\t") for _ in range(rng.randrange(0, 20))) for _ in range(120)]
     exprs, want = [], []
     for z in ints:
-        exprs.append(f"option_map to_N (render_literal (fun _ => Eq) (LInt ({z})%Z))")
+        exprs.append(f"Some (to_N (render_literal (LInt ({z})%Z)))")
         want.append(_handle_literal(z))
     for s_ in strs:
-        exprs.append(f"option_map to_N (render_literal (fun _ => Eq) (LStr (of_N {G.coq_bytes(s_.encode())})))")
+        exprs.append(f"Some (to_N (render_literal (LStr (of_N {G.coq_bytes(s_.encode())}))))")
         want.append(_handle_literal(s_))
     for bv in (True, False):
-        exprs.append(f"option_map to_N (render_literal (fun _ => Eq) (LBool {'true' if bv else 'false'}))")
+        exprs.append(f"Some (to_N (render_literal (LBool {'true' if bv else 'false'})))")
         want.append(_handle_literal(bv))
-    exprs.append("option_map to_N (render_literal (fun _ => Eq) LNull)")
+    exprs.append("Some (to_N (render_literal LNull))")
     want.append("null")
     res = coq_eval(G.DEC_HEADER, exprs, "c24_lit", shard=max(150, len(exprs) // 16 + 1))
     bad = [(w, r) for w, r in zip(want, res) if r is None or G.py_bytes(r[1]).decode("utf-8") != w]
@@ -466,7 +453,7 @@ def run(ctx):
     ctx.prove("C24")
     quick = ctx.tier == "quick"
     reserved = reserved_words()
-    literal_tie(ctx, 400 if quick else 8000)
+    literal_tie(ctx, 300 if quick else 8000)
     col = Collector(ctx)
 
     # ---- corpus of past failures first
@@ -484,7 +471,7 @@ def run(ctx):
     # ---- every parseable corpus script (quick: a sample)
     paths = G.corpus_scripts()
     if quick:
-        paths = ctx.rng.sample(paths, 500)
+        paths = ctx.rng.sample(paths, 250)
     n_parse = n_ok = 0
     for p in paths:
         try:
@@ -515,7 +502,7 @@ def run(ctx):
             col.add(key, what, {"script": t, "kind": "null-template"})
     words = sorted(w for w in reserved if re.match(r"^[a-z_]+$", w))
     if quick:
-        words = ctx.rng.sample(words, 15)
+        words = ctx.rng.sample(words, 8)
     n_r = n_r_parse = 0
     for w in words:
         for t in RESERVED_TEMPLATES:
@@ -532,7 +519,7 @@ def run(ctx):
     ctx.cov["reserved_word_cases"] = {"generated": n_r, "parseable": n_r_parse, "words": len(words)}
 
     # ---- generated scripts with data: structure + run equivalence
-    n_gen = 50 if quick else 1500
+    n_gen = 30 if quick else 1500
     n_run = n_run_ok = 0
     hist: Dict[str, int] = {}
     directed = directed_cases()
@@ -566,7 +553,7 @@ def run(ctx):
     ctx.cov["generated_template_histogram"] = hist
 
     # ---- test-suite scripts with data: run(original) = run(prettified)
-    n_suite = 15 if quick else 400
+    n_suite = 8 if quick else 400
     sp = G.corpus_scripts()
     ctx.rng.shuffle(sp)
     done = cmp_ok = 0
@@ -604,8 +591,8 @@ def run(ctx):
                        "_handle_literal and the real parser; distinct = script path / template instance / literal text")
     ctx.trusted.append("the parser stand-in (Java ANTLR interpreter of the repo's serialized ATN) for every parse in this check")
     ctx.trusted.append("CPython repr/format of floats is observed, not verified: the model's py_repr/%f/%g are compared with Python on every generated literal")
-    ctx.assumptions.append("number literals are generated with <= 15 significant digits (repr is then the decimal itself) and, when more than four "
-                           "decimals are printed, fewer than ten integer digits; outside this the float model is not claimed")
+    ctx.assumptions.append("a float is modelled by the decimal its repr shows; py_repr (when CPython switches to exponent form) is compared with "
+                           "repr() on every generated literal")
     ctx.assumptions.append("AST equality is modulo source positions and modulo the defaults of check_hierarchy / hierarchy / check_datapoint modes "
                            "(None = the default both the interpreter and the transpiler substitute)")
 
